@@ -63,11 +63,11 @@ def comparator_ok(ctx, facts, rule, callterm, site, tba_roles_kf):
            % (tname, tname, detail or "%d paths" % len(paths)), cb["span"], what="comparator-not-total-ascending")
 
 
-def check_builder(ctx, facts, body, rule="R1"):
+def check_builder(ctx, facts, body, rule="R1", TBA=TBA, KEYFRAME=KEYFRAME):
     """R1: every order-derived component of the result is computed from the *sorted* keyframes"""
     adt = facts.adt(TBA)
     roles = field_roles(adt, {
-        "keyframes": lambda t: t.startswith("alloc::vec::Vec<") and "Keyframe<" in t,
+        "keyframes": lambda t: t.startswith("alloc::vec::Vec<") and "Keyframe" in t,
         "boundary": lambda t: t == "alloc::vec::Vec<f32>",
     })
     kf_roles = field_roles(facts.adt(KEYFRAME), {"time": lambda t: t == "f32"})
@@ -197,3 +197,9 @@ def check(ctx):
                % [m["callee"] for m in muts], kb["span"], trace_of(p), what="keyframe-not-append-only")
     ctx.notes.append("not decided: ties at equal positions (excluded by the property)")
     ctx.assumptions.append("slice::sort_by with a total comparator yields a permutation sorted by that comparator")
+
+
+def controls(ctx, F):
+    b = F.one(crate="witness_controls", name="ctl_from")
+    check_builder(ctx, F, b, "R1", TBA="witness_controls::order::CtlArgs", KEYFRAME="witness_controls::order::CtlKeyframe")
+    return [("R1", "derived-before-sort", "constructor that derives the search table before sorting")]
